@@ -1,11 +1,11 @@
 #!/venv/bin/python
 # replay for obligation aioftp.server:stor_worker@appe::stor_worker/exit:owned-data-stream-closed
-# path: conn.logged-present=T.conn.passive_server-present=T.wait_for-outcome=0.conn.user-present=T.conn.user-done=T.if@6=F.backend.is_dir-fault=0.if@25=T.conn.data_connection-present=T.cancel@wait_for(gather)=0.wait_for-outcome=0.conn.data_connection-done=T.if@3=T.cancel@backend._open=0.backend._open-fault=0.if@8=T.cancel@backend.seek=0.backend.seek-fault=1.cancel@backend.close=0.backend.close-fault=0
+# path: conn.logged-present=T.conn.passive_server-present=T.wait_for-outcome=0.conn.user-present=T.conn.user-done=T.if@6=F.backend.is_dir-fault=0.if@25=T.conn.data_connection-present=T.wait_future_timeout-is-None=0.cancel@wait_for(gather)=0.wait_for-outcome=0.conn.data_connection-done=T.if@3=T.cancel@backend._open=0.backend._open-fault=0.if@8=T.cancel@backend.seek=0.backend.seek-fault=1.cancel@backend.close=0.backend.close-fault=0
 # run: AIOFTP_REPO=/repo /venv/bin/python /verif/replays/C13_aioftp.server_stor_worker_appe_stor_worker_exit_owned-data-stream-closed.py
 import os, sys
 sys.path.insert(0, os.path.join(os.environ.get("AIOFTP_REPO", "/repo"), "src"))
 OBLIGATION = 'aioftp.server:stor_worker@appe::stor_worker/exit:owned-data-stream-closed'
-MODEL = {'data_connection_done!22': True, 'restart_offset!10': 1, 'block_size!0': 1, 'data_connection_present!21': True, 'dc_accepted!42': False, 'dc_accepted!39': False, 'dc_accepted!35': False, 'dc_accepted!30': False, 'dc_accepted!34': False, 'dc_accepted!38': False, 'dc_accepted!29': False, 'user_present!11': True, 'user_done!12': True, 'current_directory_present!15': True, 'current_directory_done!16': True, 'passive_server_present!19': True, 'logged_present!13': True, 'passive_server_done!20': True, 'logged_done!14': True, 'fsbool!37': True, 'auth_ok!27': True, 'writable!33': True}
+MODEL = {'data_connection_done!22': True, 'block_size!0': 1, 'wait_future_timeout!41': '0/1', 'restart_offset!10': 1, 'data_connection_present!21': True, 'dc_accepted!35': False, 'dc_accepted!39': False, 'dc_accepted!43': False, 'dc_accepted!30': False, 'dc_accepted!34': False, 'dc_accepted!38': False, 'dc_accepted!29': False, 'user_present!11': True, 'user_done!12': True, 'current_directory_present!15': True, 'current_directory_done!16': True, 'passive_server_present!19': True, 'logged_present!13': True, 'passive_server_done!20': True, 'logged_done!14': True, 'auth_ok!27': True, 'fsbool!37': True, 'writable!33': True}
 SOLVER_NOTE = ''
 
 print("obligation", OBLIGATION, "failed; no concrete failing input could be constructed automatically")
